@@ -66,72 +66,31 @@ example : ¬ Canonical ⟨UNDERLINE_DOTTED.bits ||| UNDERLINE_CURLY.bits⟩ ∧
 
 /-- **C19, faces.** A face printed as text parses back to the same face: for every foreground and background
     (absent or any RGBA value, any alpha), every canonical attribute word, and whatever colour-name table the
-    parser is given. (`Serialize` writes this text as a JSON string, `Deserialize` parses the string.) -/
+    parser is given. (`Serialize` writes this text as a JSON string, `Deserialize` parses the string.)
+    Stated for the full parser (`parseFaceWith`: the `/alpha` suffix handled, its float arithmetic a parameter)
+    and for the parser the driver runs (`parseFace`). -/
 theorem C19_face (named : List Char → Option RGBA) (f : Face) (h : Canonical f.attrs) :
-    parseFace named (printFace f) = .ok f := by
-  obtain ⟨fg, bg, attrs⟩ := f
-  obtain ⟨u, fl, rfl⟩ := canonical_cases h
-  obtain ⟨hfold, hnames⟩ := names_fin u fl
-  -- the fold over the pieces
-  have hfoldAll : faceFold named (facePieces ⟨fg, bg, pack u.val fl.val⟩) Face.default
-      = .ok ⟨fg, bg, pack u.val fl.val⟩ := by
-    unfold facePieces
-    rw [faceFold_append, faceFold_append]
-    cases fg with
-    | none =>
-      cases bg with
-      | none =>
-        simp only [faceFold]
-        rw [faceFold_names named _ _ hnames]
-        simp only [Face.default, hfold]
-      | some cb =>
-        simp only [faceFold, bg_piece]
-        rw [faceFold_names named _ _ hnames]
-        simp only [Face.default, hfold]
-    | some cf =>
-      cases bg with
-      | none =>
-        simp only [faceFold, fg_piece]
-        rw [faceFold_names named _ _ hnames]
-        simp only [Face.default, hfold]
-      | some cb =>
-        simp only [faceFold, fg_piece, bg_piece]
-        rw [faceFold_names named _ _ hnames]
-        simp only [Face.default, hfold]
-  -- no piece contains a comma
-  have hcomma : ∀ p ∈ facePieces ⟨fg, bg, pack u.val fl.val⟩, ',' ∉ p := by
-    intro p hp
-    simp only [facePieces, List.mem_append] at hp
-    rcases hp with (hp | hp) | hp
-    · cases fg with
-      | none => simp at hp
-      | some c =>
-        simp only [List.mem_cons, List.not_mem_nil, or_false] at hp
-        subst hp; exact color_piece_no_comma sFg (by decide) c
-    · cases bg with
-      | none => simp at hp
-      | some c =>
-        simp only [List.mem_cons, List.not_mem_nil, or_false] at hp
-        subst hp; exact color_piece_no_comma sBg (by decide) c
-    · have := (List.all_eq_true.1 hnames) p hp
-      simp only [isAttrName, Bool.and_eq_true, Bool.not_eq_true'] at this
-      intro hm
-      have hc : p.contains ',' = true := List.contains_iff_mem.2 hm
-      rw [this.2] at hc; exact absurd hc (by simp)
-  unfold parseFace printFace
-  by_cases hne : facePieces ⟨fg, bg, pack u.val fl.val⟩ = []
-  · -- the default face prints as the empty string, which splits into one empty piece
-    rw [hne] at hfoldAll ⊢
-    simp only [faceFold] at hfoldAll
-    rw [← Except.ok.inj hfoldAll]
-    show faceFold named [[]] Face.default = _
-    simp only [faceFold, faceStep_empty]
-  · rw [splitOn_joinComma _ hne hcomma]; exact hfoldAll
+    parseFace named (printFace f) = .ok f ∧
+    ∀ alpha : List Char → Option (UInt8 → UInt8), parseFaceWith alpha named (printFace f) = .ok f :=
+  ⟨face_roundtrip _ (parse_printRGBA named) f h, fun alpha => face_roundtrip _ (parseWith_printRGBA alpha named) f h⟩
+
+/-- **C19, face strings are total.** For every string, every colour table and every behaviour of the float
+    parser / alpha scaling, `Face::from_str_named` returns a face or a parse error: the model has no other
+    outcome (no slice, index or arithmetic of that code can fail — the suffix is cut at the one-byte `/`, the
+    float-to-`u8` cast saturates), and the `unmodelled` answer of the driver's parser does not occur. -/
+theorem C19_face_parse_total (alpha : List Char → Option (UInt8 → UInt8)) (named : List Char → Option RGBA)
+    (s : List Char) :
+    (∃ f, parseFaceWith alpha named s = .ok f) ∨ parseFaceWith alpha named s = .error .parseError :=
+  faceFold_total _ (parseRGBAWith_total alpha named) _ _
+
+/-- the suffix branch is live: `#102030/x` with a scaling that halves the alpha byte -/
+example : parseRGBAWith (fun _ => some (fun a => a / 2)) (fun _ => none) "#102030/x".toList = .ok ⟨16, 32, 48, 127⟩ := by
+  decide
 
 /-- in particular for every face whose attributes were built through the public API -/
 theorem C19_face_reachable (named : List Char → Option RGBA) (f : Face) (h : Reachable f.attrs) :
     parseFace named (printFace f) = .ok f :=
-  C19_face named f (C19_attrs_canonical f.attrs h)
+  (C19_face named f (C19_attrs_canonical f.attrs h)).1
 
 /-- the hypothesis of `C19_face` holds e.g. for a translucent foreground, an opaque background, curly
     underline + bold + strike; the printed text is `fg=#0a141e80,bg=#ffffff,underline_curly,bold,strike` -/
@@ -214,5 +173,47 @@ theorem C19_image_total (sched : Nat → List Nat) (doc : List Entry) :
 
 /-- `defaultSched` (what the driver uses) is sufficient, so the second half is not vacuous -/
 example : Sufficient defaultSched := defaultSched_sufficient
+
+/-! ## arbitrary JSON documents -/
+
+/-- the deserialisers the model does not contain (they run through `serde_json::Value` and `rasterize`), and
+    layout + rendering of a deserialised view under an environment (context, constraint, target surface) -/
+structure Deserialisers (Glyph Text View Env : Type) where
+  glyph : Json → Outcome Glyph
+  text : Json → Outcome Text
+  view : Json → Outcome View
+  layoutRender : View → Env → Outcome Unit
+
+/-- **The last sentence of C19 in full** (a statement, not a theorem): deserialising any JSON value as an
+    image, glyph, text or view tree returns a value or an error, never a panic; and every view tree that
+    deserialises lays out and renders (returns `Ok`, read strictly: an `Err` from layout or render of a
+    deserialised view counts as a failure) under every environment. -/
+def C19_documents_full {Glyph Text View Env : Type} (sched : Nat → List Nat) (D : Deserialisers Glyph Text View Env) : Prop :=
+  ∀ j : Json,
+    deImage sched j ≠ .panic ∧ D.glyph j ≠ .panic ∧ D.text j ≠ .panic ∧ D.view j ≠ .panic ∧
+    ∀ v, D.view j = .ok v → ∀ env, D.layoutRender v env = .ok ()
+
+/-- **What is proved of it: the image component**, for every JSON value (objects with members in any order,
+    repeated or missing, of any type; non-objects) and every buffer schedule: no panic, and a value or an error
+    under a sufficient schedule.  The glyph / text / view-tree components and layout + rendering are NOT
+    modelled (`Deserialisers` is abstract); they are covered by structured generation in the harness only. -/
+theorem C19_documents_partial (sched : Nat → List Nat) (j : Json) :
+    deImage sched j ≠ .panic ∧ (Sufficient sched → deImage sched j = .err ∨ ∃ img, deImage sched j = .ok img) := by
+  cases j with
+  | obj ms => exact C19_image_total sched (ms.map Json.entry)
+  | _ => exact ⟨by simp [deImage], fun _ => Or.inl rfl⟩
+
+/-- the full statement reduces to its unmodelled part: given the three other deserialisers never panic and
+    deserialised views lay out and render, `C19_documents_full` holds -/
+theorem C19_documents_full_of_unmodelled {Glyph Text View Env : Type} (sched : Nat → List Nat)
+    (D : Deserialisers Glyph Text View Env)
+    (h : ∀ j, D.glyph j ≠ .panic ∧ D.text j ≠ .panic ∧ D.view j ≠ .panic ∧
+      ∀ v, D.view j = .ok v → ∀ env, D.layoutRender v env = .ok ()) :
+    C19_documents_full sched D :=
+  fun j => ⟨(C19_documents_partial sched j).1, h j⟩
+
+/-- a JSON object with a repeated `data` key and an ill-typed `channels`: the visitor's entries -/
+example : (([(kData, .str [65, 65, 65, 65]), (kSize, .arr [.nat 1, .nat 1]), (kData, .null), (kChannels, .num)]
+    : List (List UInt8 × Json)).map Json.entry) = [.data [65, 65, 65, 65], .size 1 1, .bad, .bad] := by decide
 
 end SurfProofs.C19
